@@ -449,6 +449,13 @@ Definition exec_stake (c : cfg) (no : Z) (d : durable) (m : memory) (who : N) (a
   let d3 := set_sysbal (d_sysbal d2 + amt) (set_bal (al_set N.eqb who (Z.abs (bal_of d2 who - amt)) (d_bal d2)) d2) in
   (EOk, d3, m).
 
+(** setVote: a BP ballot is stored as candidates ++ amount bytes; with no candidate and amount 0
+    that is the empty string, which getVote reads as "no record" *)
+Definition vote_stored_empty (issue : N) (v : vote) : bool :=
+  negb (is_ex issue) && (match vt_cands v with [] => true | _ :: _ => false end) && (vt_amount v =? 0).
+Definition put_vote (issue who : N) (v : vote) (votes : list (vkey * vote)) : list (vkey * vote) :=
+  if vote_stored_empty issue v then al_del vkey_eqb (issue, who) votes else al_set vkey_eqb (issue, who) v votes.
+
 (** one iteration of refreshAllVote *)
 Definition refresh_one (c : cfg) (who : N) (staked : Z) (issue : N) (acc : res) : res :=
   let '(e, d, m) := acc in
@@ -462,7 +469,7 @@ Definition refresh_one (c : cfg) (who : N) (staked : Z) (issue : N) (acc : res) 
       | None => (EPanic, d, m)
       | Some (r1, t1, m1) =>
         let nv := {| vt_cands := vt_cands old; vt_amount := staked |} in
-        let d1 := set_votes (al_set vkey_eqb (issue, who) nv (d_votes d)) d in
+        let d1 := set_votes (put_vote issue who nv (d_votes d)) d in
         let '(r2, t2, m2) := vcmd_add c who nv r1 t1 m1 in
         match sync c issue r2 t2 d1 m2 with
         | SyncOk d' m' => (EOk, d', m')
@@ -503,7 +510,7 @@ Definition exec_vote (c : cfg) (no : Z) (d : durable) (m : memory) (who issue : 
   let s' := {| st_amount := st_amount s; st_when := no |} in
   let nv := {| vt_cands := cands; vt_amount := st_amount s |} in
   let d1 := set_stakes (al_set N.eqb who s' (d_stakes d)) d in
-  let d2 := set_votes (al_set vkey_eqb (issue, who) nv (d_votes d1)) d1 in
+  let d2 := set_votes (put_vote issue who nv (d_votes d1)) d1 in
   match vcmd_sub c who old (get_result d issue) (getZ issue (d_vtotals d)) m with
   | None => (EPanic, d, m)
   | Some (r1, t1, m1) =>
